@@ -16,6 +16,15 @@ PROP = {
         "kinds": {"corr": "corr", "monitor": "monitor"},
         "n_quick": 300,
         "n_thorough": 5000,
+    }, {
+        "name": "oraclemem",
+        "harness": "c09mem",
+        "header": "From Coq Require Import List String ZArith.\nFrom Exo Require Import Base.Util C09.Model.\nImport ListNotations.",
+        "case_type": "case",
+        "checks": {"corr": "check_case", "monitor": "monitor_case"},
+        "kinds": {"corr": "corr", "monitor": "monitor"},
+        "n_quick": 120,
+        "n_thorough": 1500,
     }],
     "rule": ("each case = ONE call issued in a random reachable state of a real ExocoreApp (state evolved by the successful calls of the same "
              "stream: LST/NST deposits and withdrawals, delegations, undelegations, associations, token/client-chain registrations, slashes, "
@@ -39,8 +48,10 @@ PROP = {
         "the fact extractor and the store digest in harness/s_c09.go (which keys belong to which class)",
         "message path: the runTx cache of baseapp is emulated by ctx.CacheContext around the message server call (ante handlers, fees and sequence "
         "numbers are not exercised by this suite)",
-        "not covered: the oracle module's in-memory aggregator/cache (no dump hook available to this suite) — store level only; AVS and reward "
-        "precompile methods are covered by the generic theorems and by reading only (see design/C09.md)",
+        "oracle in-memory state: suite oraclemem delivers validator-signed MsgCreatePrice transactions (1-2 messages) through BaseApp.DeliverTx of a "
+        "running chain and digests the store AND the process memory (verif hook VerifC14DumpMem: aggregator context, caches, updated feeder ids); "
+        "which message failed is read from the DeliverTx response, the oracle's own admission logic is not modelled here (C12/C13)",
+        "updateAVS, challenge, registerBLSPublicKey and the reward/slash precompile stubs are covered by the generic theorems and by reading only (see design/C09.md)",
     ],
     "assumptions": [
         "delegateTo is atomic under 'pool amount is zero only if pool share is zero' and non-negative stored amounts (C01/C02 invariants); "
